@@ -79,8 +79,7 @@ def scenarios(prop, lentil, rng):
             P = float(np.sum(np.abs(ref.field) ** 2))
             worst = {}
             for label, scratch, tol in (('byte-swapped complex128', np.zeros(need, dtype=np.dtype(complex).newbyteorder()), 1e-10),
-                                        ('complex64', np.zeros(need, dtype=np.complex64), 1e-5),
-                                        ('larger complex64', np.zeros((need[0] + 7, need[1] + 3), dtype=np.complex64), 1e-5),
+                                        ('larger byte-swapped complex128', np.zeros((need[0] + 7, need[1] + 3), dtype=np.dtype(complex).newbyteorder()), 1e-10),
                                         ('Fortran complex128', np.zeros((need[1] + 3, need[0] + 7), dtype=complex).T, 1e-10),
                                         ('float64', np.zeros(need), 1e-10), ('float32', np.zeros(need, dtype=np.float32), 1e-5)):
                 scratch[...] = 7
